@@ -62,6 +62,14 @@ def generate(rng, tier, index):
         recipe["batch"] = []
     recipe["n"] = rng.randint(3, 7) if fam in ("default", "rff") else (rng.randint(5, 8) if approx else rng.randint(3, 4))
     max_len = rng.randint(3, 10) if not thorough else rng.randint(4, 30)
+    # iterative regime with small targets: the mean-cache solve runs through CG, whose stopping rule is relative to the norm
+    # of the right-hand side - whatever 'fill' puts into the missing entries must not drown the observed ones
+    cg_small = fam == "default" and not recipe["batch"] and recipe["lik"] == "gaussian" and rng.random() < 0.12
+    if cg_small:
+        recipe["n"] = rng.randint(10, 14)
+        recipe["target_scale"] = 1e-3
+        recipe["mean"] = "zero"
+        recipe.pop("priors", None)
     rate_mode = rng.choice(["none", "low", "high", "all_but_one", "mixed"])
     allow = {"fast_pred_var", "detach_test_caches", "max_eager_kernel_size", "lazily_evaluate_kernels", "skip_posterior_variances"}
     if approx:
@@ -84,7 +92,9 @@ def generate(rng, tier, index):
             "policy": policy,
             "seed": rng.randrange(1 << 30),
             "t": t,
-            "bundle": bundles.gen_bundle(rng, recipe["n"] + t, allow=al, p_each=0.35),
+            "bundle": bundles.gen_bundle(rng, recipe["n"] + t, allow=al, p_each=0.35)
+            if not recipe.get("target_scale")
+            else [["max_cholesky_size", {"value": 0}], ["eval_cg_tolerance", {"value": 1e-6}], ["cg_tolerance", {"value": 1e-6}], ["max_cg_iterations", {"value": 2000}]],
         }
 
     ops = [gen_targets(), gen_predict()]
@@ -191,7 +201,7 @@ def make_nan_targets(recipe, op, M):
     X = M.train_inputs[0]
     fam = recipe["family"]
     T = recipe.get("tasks") if fam == "multitask" else None
-    y = zoo.make_targets(op["seed"], X, scale=2.0, tasks=T)
+    y = zoo.make_targets(op["seed"], X, scale=2.0, tasks=T) * float(recipe.get("target_scale", 1.0))
     g = zoo.gen(op["seed"] + 7)
     mode = op["mode"]
     if mode == "none":
@@ -370,8 +380,14 @@ def execute(history):
                             if not torch.isfinite(a).all():
                                 out.violate("nan_in_output", i, "%s under policy %s contains NaN/Inf with %d NaN targets" % (q, policy, nans), quantity=q, **cls)
                                 continue
+                            if recipe.get("target_scale") and q == "mean":
+                                # small targets: judge the mean relative to its own scale (1e-3 of it), not to 1
+                                a, r = a / recipe["target_scale"], r / recipe["target_scale"]
+                                out.stats["probe:cg_small_targets_mean_compared"] += 1
                             ok, diff, scale = compare.tensor_diff(a, r)
-                            if not ok or not diff <= tol * scale:
+                            # (iterative regime: CG at relative tolerance 1e-6 on O(1) right-hand sides for the covariance)
+                            qtol = ((1e-3 if q == "mean" else 1e-4) if recipe.get("target_scale") else tol)
+                            if not ok or not diff <= qtol * scale:
                                 # narrow classification for known finding F5: is it exactly the covariance obtained by
                                 # conditioning on *all* training locations (the policy ignored by the covariance path)?
                                 unmasked = False
@@ -382,13 +398,13 @@ def execute(history):
                                             Fa.eval()
                                             ref_all = compare.observe_dist(Fa(xs))
                                     ok2, diff2, scale2 = compare.tensor_diff(a, ref_all[q].reshape(a.shape))
-                                    unmasked = bool(ok2 and diff2 <= tol * scale2)
+                                    unmasked = bool(ok2 and diff2 <= qtol * scale2)
                                 elif q in ("covar", "variance") and nans:
                                     if ref_all is None:
                                         ref_all, _ = reference_posterior(M, recipe, torch.zeros_like(y), xs, policy)
                                     ra = ref_all[q].reshape(a.shape) if ref_all[q].numel() == a.numel() else ref_all[q]
                                     ok2, diff2, scale2 = compare.tensor_diff(a, ra)
-                                    unmasked = bool(ok2 and diff2 <= tol * scale2)
+                                    unmasked = bool(ok2 and diff2 <= qtol * scale2)
                                 out.violate(
                                     "posterior_vs_deletion",
                                     i,
